@@ -39,6 +39,7 @@ CONSTANTS
   Retries,       \* receive retry budget
   BackoffUnit,   \* 50ms in ticks (may be 0 on a coarse grid)
   UnicastOnly, CfgLife,
+  MonitorMode,   \* TRUE: the task is a Monitor (monitor.go): listener + link watcher only, nothing is ever transmitted
   Hosts,         \* solicitation sources other than ::
   Kinds,         \* extra message kinds offered by the environment
   MaxIn, MaxT, MaxFlips, MaxHolds,
@@ -105,7 +106,7 @@ Init ==
   /\ ls = [pc |-> "off", i |-> 0, timer |-> 0, msg |-> NONE]
   /\ lsown = FALSE /\ intr = "off" /\ dl = FALSE /\ lw = "off" /\ linkEv = FALSE
   /\ ipc = <<>> /\ inbox = <<>> /\ fwd \in BOOLEAN /\ held = {}
-  /\ rq = ReqInit([unicast |-> UnicastOnly, cfglife |-> CfgLife, mon |-> FALSE, strict |-> MinIv > MaxT,
+  /\ rq = ReqInit([unicast |-> UnicastOnly, cfglife |-> CfgLife, mon |-> MonitorMode, strict |-> MinIv > MaxT,
                   quiet |-> (MaxIn = 0 /\ MinIv >= 2 * MinDelay), miniv |-> MinIv, maxiv |-> MaxIv])
   /\ nIn = 0 /\ nFlip = 0 /\ nHold = 0 /\ nQuery = 0
 
@@ -118,11 +119,11 @@ Fail(e) == /\ egerr' = IF egerr = NONE THEN e ELSE egerr
 M_InitSend ==
   /\ main = "init"
   /\ rq' = LET r1 == OnDial(rq, [k |-> 1, res |-> "ok", t |-> now]) IN
-           IF UnicastOnly THEN r1      \* send() skips multicast before building anything
+           IF UnicastOnly \/ MonitorMode THEN r1      \* send() skips multicast before building anything; a monitor sends nothing
            ELSE OnWRet(OnWCall(Gen(r1), EvWC(ALLNODES, Life)), EvWR(ALLNODES, TRUE))
   /\ main' = "egwait"
-  /\ sch' = [sch EXCEPT !.pc = "select", !.last = now]
-  /\ mc' = [mc EXCEPT !.pc = IF UnicastOnly THEN "done" ELSE "check"]
+  /\ sch' = [sch EXCEPT !.pc = IF MonitorMode THEN "done" ELSE "select", !.last = now]
+  /\ mc' = [mc EXCEPT !.pc = IF UnicastOnly \/ MonitorMode THEN "done" ELSE "check"]
   /\ ls' = [ls EXCEPT !.pc = "top"] /\ intr' = "wait" /\ lw' = "wait"
   /\ UNCHANGED <<now, parent, term, egc, egerr, ret, stopped, tasks, nextId, wk, lsown, dl, linkEv, ipc, inbox, fwd, held, nIn, nFlip, nHold, nQuery>>
 
@@ -139,7 +140,7 @@ M_EgDone ==
 \* shutdown(): terminate() false, or unicast-only (send() skips multicast) => nothing
 M_ShutCall ==
   /\ main = "shutdown"
-  /\ IF term /\ ~UnicastOnly
+  /\ IF term /\ ~UnicastOnly /\ ~MonitorMode
      THEN /\ rq' = OnWCall(OnFwd(rq, EvFwd), EvWC(ALLNODES, 0))
           /\ main' = "shutwrite" /\ ret' = ret
      ELSE /\ rq' = OnRet(OnDone(rq, EvK), [res |-> "nil", t |-> now])
@@ -331,10 +332,11 @@ L_Handle ==
   /\ ls.pc = "handle"
   /\ LET msg == ls.msg
          r1  == OnCnt(rq, EvCnt("rx")) IN
-     /\ ls' = IF msg.kind = "rs"
+     /\ ls' = IF msg.kind = "rs" /\ ~MonitorMode
               THEN [ls EXCEPT !.pc = "push", !.msg = IF msg.src = UNSPEC THEN ALLNODES ELSE msg.src]
               ELSE [ls EXCEPT !.pc = "top", !.msg = NONE]
-     /\ rq' = CASE msg.kind = "other"  -> OnCnt(r1, EvCnt("inv"))
+     /\ rq' = CASE MonitorMode         -> r1                                  \* Monitor.handle: count, export, nothing else
+                [] msg.kind = "other"  -> OnCnt(r1, EvCnt("inv"))
                 [] msg.kind = "rasame" -> Gen(r1)                             \* buildRA for the comparison
                 [] msg.kind = "radiff" -> OnHook(Gen(r1), [life |-> Life, body |-> "b", t |-> now])
                 [] OTHER               -> r1
